@@ -136,27 +136,33 @@ def create (fs : Fs) (p : P) (d : Bytes) : Fs × Except Errno Unit :=
     | some .dir => (fs, .error .eisdir)
     | _ => (fs, .error .enoent)
 
-/-- `os.MkdirAll` (Go 1.23): stat fast path, parents first, then `Mkdir`, tolerating a directory
-    that appeared meanwhile. `n` is the recursion budget (`p.length` suffices). -/
+/-- the tail of `os.MkdirAll`: `Mkdir`, tolerating a directory that is already there -/
+def mkdirThen (fs1 : Fs) (p : P) : Fs × Except Errno Unit :=
+  match mkdir fs1 p with
+  | (fs2, .ok ()) => (fs2, .ok ())
+  | (fs2, .error e) =>
+    match lstat fs2 p with
+    | .ok .dir => (fs2, .ok ())
+    | _ => (fs2, .error e)
+
+/-- `os.MkdirAll` (Go 1.23): stat fast path, parents first, then `Mkdir`. The first argument is
+    the recursion budget (`p.length` suffices). -/
 def mkdirAllAux (fs : Fs) : Nat → P → Fs × Except Errno Unit
-  | n, p =>
+  | 0, p =>
+    match stat fs p with
+    | .ok .dir => (fs, .ok ())
+    | .ok _ => (fs, .error .enotdir)
+    | .error _ => mkdirThen fs p
+  | n + 1, p =>
     match stat fs p with
     | .ok .dir => (fs, .ok ())
     | .ok _ => (fs, .error .enotdir)
     | .error _ =>
-      let pre : Fs × Except Errno Unit :=
-        match n with
-        | 0 => (fs, .ok ())
-        | n + 1 => if p.length ≥ 2 then mkdirAllAux fs n p.dropLast else (fs, .ok ())
-      match pre with
-      | (fs1, .error e) => (fs1, .error e)
-      | (fs1, .ok ()) =>
-        match mkdir fs1 p with
-        | (fs2, .ok ()) => (fs2, .ok ())
-        | (fs2, .error e) =>
-          match lstat fs2 p with
-          | .ok .dir => (fs2, .ok ())
-          | _ => (fs2, .error e)
+      if p.length ≥ 2 then
+        match mkdirAllAux fs n p.dropLast with
+        | (fs1, .error e) => (fs1, .error e)
+        | (fs1, .ok ()) => mkdirThen fs1 p
+      else mkdirThen fs p
 
 def mkdirAll (fs : Fs) (p : P) : Fs × Except Errno Unit := mkdirAllAux fs p.length p
 
